@@ -369,6 +369,7 @@ class RewritingContext:
         context: InsertionContext,
         *,
         implicit_cfi_procedure: bool = True,
+        modify_cache: Optional[ModifyCache] = None,
     ) -> Optional[Assembler.Result]:
         """
         Invokes a patch at a concrete location and assembles it.
@@ -422,8 +423,23 @@ class RewritingContext:
         elif isinstance(actual_block, gtirb.DataBlock):
             is_trivially_unreachable = True
 
+        target = Assembler.ModuleTarget(self._module)
+        if modify_cache is not None:
+            # Symbols whose block was moved earlier in this rewrite may only
+            # have an indirect referent in the reference cache; the assembler
+            # reads Symbol.referent directly, so make them direct first.
+            module_lookup = target.symbol_lookup
+            reference_cache = modify_cache.reference_cache
+
+            def symbol_lookup(name: str) -> Iterator[gtirb.Symbol]:
+                for sym in module_lookup(name):
+                    reference_cache.get_referent(sym)
+                    yield sym
+
+            target.symbol_lookup = symbol_lookup
+
         assembler = Assembler(
-            self._module,
+            target,
             temp_symbol_suffix=f"_{self._patch_id}",
             trivially_unreachable=is_trivially_unreachable,
             implicit_cfi_procedure=implicit_cfi_procedure,
@@ -673,6 +689,7 @@ class RewritingContext:
                         actual_block,
                         actual_offset,
                         context,
+                        modify_cache=modify_cache,
                     )
                 else:
                     assembler_result = self._synthesize_result(
@@ -836,6 +853,7 @@ class RewritingContext:
             0,
             context,
             implicit_cfi_procedure=False,
+            modify_cache=modify_cache,
         )
         if assembler_result is None:
             return
